@@ -38,6 +38,7 @@ FMT = dict(
 	final=['yes', 'no'],
 	gz=['no', 'yes', 'multi-member'],
 	name=['x.fasta', 'x.fa.gz', 'x', 'x.gz.fna'],
+	header=['plain', 'id-only', 'looks-like-sequence', 'long'],      # record titles are not biological content
 )
 
 
@@ -67,7 +68,8 @@ def write(path, seqs, fmt):
 	eol = '\n' if fmt['eol'] == 'lf' else '\r\n'
 	lines = []
 	for i, s in enumerate(seqs):
-		lines.append(f'>c{i + 1} some description {i}')
+		lines.append({'plain': f'>c{i + 1} some description {i}', 'id-only': f'>c{i + 1}', 'looks-like-sequence': f'>ATCGCATT{"ACGT"[i % 4]} ATGACGGATCGCAC >ATTT',
+		              'long': f'>c{i + 1} ' + 'ATCGCA plasmid=yes; ' * 40}[fmt.get('header', 'plain')])
 		w = width_of(fmt['width'], len(s))
 		lines.extend(s[j:j + w] for j in range(0, len(s), w))
 	txt = eol.join(lines) + (eol if fmt['final'] == 'yes' else '')
